@@ -95,6 +95,19 @@ def mutate(rng, text):
     return None, None
 
 
+def multiset_pairs():
+    """an operation performed twice against one copy of it plus a different, independent operation of the same kind (a comparison of
+    the two specifications' stores that is not one-to-one lets both copies match the same store), both directions"""
+    out = []
+    for st, a, b in (("SSTORE", "0x0", "0x40"), ("SSTORE", "0x1", "0x2"), ("MSTORE", "0x0", "0x40"), ("MSTORE", "0x20", "0x80"), ("MSTORE8", "0x0", "0x40")):
+        twice = "PUSH1 0x5 PUSH1 %s %s PUSH1 0x5 PUSH1 %s %s" % (a, st, a, st)
+        other = "PUSH1 0x5 PUSH1 %s %s PUSH1 0x7 PUSH1 %s %s" % (a, st, b, st)
+        other2 = "PUSH1 0x5 PUSH1 %s %s PUSH1 0x5 PUSH1 %s %s" % (a, st, b, st)
+        out += [(twice, other), (other, twice), (twice, other2), (other2, twice)]
+        out += [("DUP2 DUP2 %s %s" % (st, st), "DUP2 DUP2 %s SWAP1 POP PUSH1 %s %s" % (st, b, st))]
+    return out
+
+
 def run(tier):
     sd = common.seed()
     rng = random.Random(sd * 31337 + 5)
@@ -111,6 +124,9 @@ def run(tier):
             k, m = mutate(rng, b)
             if m is not None and m != b:
                 tasks.append({"kind": "compare", "a": b, "b": m, "opts": o, "mut": k})
+    for a, b in multiset_pairs():
+        for o in osets:
+            tasks.append({"kind": "compare", "a": a, "b": b, "opts": o, "mut": "multiset"})
     groups = {}
     for t in tasks:
         groups.setdefault(tuple(t["opts"]), []).append(t)
